@@ -49,7 +49,14 @@ def run_lines(real, lines):
 
 class C18(Check):
     id = "C18"
-    modules = ["EG.Props.C18"]
+    modules = ["EG.Props.C18Table", "EG.Props.C18"]
+
+    def regenerate(self, log):
+        import tables_ts
+        n, changed = tables_ts.regenerate()
+        log["table_rows"] = n
+        log["table_changed_since_last_run"] = changed
+        return None
     assumptions = ["the only re-entrancy exercised is a global clear issued from inside a constructor; constructors do not construct other singletons"]
 
     def batches(self, tier, rng, real):
